@@ -782,6 +782,8 @@ def arith(op, *args, w=None):
         x, y = args[0].args[0], args[1].args[0]
         return const(w, x + y if op == 'add' else x - y if op == 'sub' else x * y)
     if op == 'add':
+        if args[0] is args[1]:
+            return shl(args[0], 1)            # x + x: the form the compiler produces as well
         if args[0].op == 'const' and args[0].args[0] == 0:
             return args[1]
         if args[1].op == 'const' and args[1].args[0] == 0:
